@@ -1,8 +1,7 @@
 SPECIFICATION Spec
 CONSTANT NFolders = 2
 CONSTANT Members <- M23
-CONSTANT HeaderCrcWritten = FALSE
+CONSTANT HeaderCrcWritten = TRUE
 INVARIANT NoWrongSuccess
 INVARIANT HeaderCovered
-INVARIANT UncoveredByWriter
 CHECK_DEADLOCK FALSE
